@@ -38,12 +38,10 @@ impl Number<'_> {
     #[inline(always)]
     pub fn is_fast_path<F: RawFloat, const FORMAT: u128>(&self) -> bool {
         let format = NumberFormat::<FORMAT> {};
-        debug_assert!(
-            format.mantissa_radix() == format.exponent_base(),
-            "fast path requires same radix"
-        );
-        F::min_exponent_fast_path(format.radix()) <= self.exponent
-            && self.exponent <= F::max_exponent_disguised_fast_path(format.radix())
+        // NOTE: The exponent is always relative to the exponent base, which
+        // can differ from the radix of the significant digits (`0x1.8p3`).
+        F::min_exponent_fast_path(format.exponent_base()) <= self.exponent
+            && self.exponent <= F::max_exponent_disguised_fast_path(format.exponent_base())
             && self.mantissa <= F::MAX_MANTISSA_FAST_PATH
             && !self.many_digits
     }
@@ -63,10 +61,6 @@ impl Number<'_> {
     #[allow(clippy::let_unit_value)] // reason = "intentional ASM drop for X87 FPUs"
     pub fn try_fast_path<F: RawFloat, const FORMAT: u128>(&self) -> Option<F> {
         let format = NumberFormat::<FORMAT> {};
-        debug_assert!(
-            format.mantissa_radix() == format.exponent_base(),
-            "fast path requires same radix"
-        );
         // The fast path crucially depends on arithmetic being rounded to the correct
         // number of bits without any intermediate rounding. On x86 (without SSE
         // or SSE2) this requires the precision of the x87 FPU stack to be
@@ -77,7 +71,8 @@ impl Number<'_> {
         let _cw = set_precision::<F>();
 
         if self.is_fast_path::<F, FORMAT>() {
-            let radix = format.radix();
+            // Scale by powers of the exponent base, not of the mantissa radix.
+            let radix = format.exponent_base();
             let max_exponent = F::max_exponent_fast_path(radix);
             let mut value = if self.exponent <= max_exponent {
                 // normal fast path
